@@ -44,7 +44,16 @@ pub fn run_range_stream(rep: &mut Report, p: &Params, inputs: &[In], allow_inval
     let n = p.n();
     let mut judged = 0usize;
     let mut ever_invalid = false;
+    let len = inputs.len();
+    let perturb_at: [usize; 2] = if len % 2 == 0 && len > 4 { [len / 3, (2 * len) / 3 + 1] } else { [usize::MAX, usize::MAX] };
     for (i, x) in inputs.iter().enumerate() {
+        // transparent identity changes mid-stream (clone-and-replace, serialize-deserialize-and-replace)
+        if i == perturb_at[0] {
+            prefix_ops.push(inst.perturb(0).to_json());
+        }
+        if i == perturb_at[1] {
+            prefix_ops.push(inst.perturb(1).to_json());
+        }
         let r = rm.push(x);
         let out = match inst.feed(x) {
             Ok(o) => o,
@@ -109,6 +118,7 @@ pub fn run_range_stream(rep: &mut Report, p: &Params, inputs: &[In], allow_inval
             let sig = format!("{}/c07.range/{}/{}", p.kind.name(), class, phase(t, n));
             if rep.is_new_sig(&sig) {
                 let detail = format!("{} t={}: output {:e} outside [{}, {}] ± {:e} (reference {:e}, c={:e})", p.label(), t, v, lo, hi, slack, r.v[0].to_f64(), r.c[0]);
+                // (the perturbation ops are listed before the inputs; their exact position is in `detail`)
                 let mut ops = prefix_ops.clone();
                 ops.extend(inputs[..=i].iter().map(|x| x.to_json()));
                 let replay = replay_range("C07", &sig, p, serde_json::Value::Array(ops), 0, lo - slack, hi + slack, &detail);
